@@ -98,3 +98,94 @@ Proof. reflexivity. Qed.
 Lemma skel_rm_tryCommitPatch_ok : skel_rm_tryCommitPatch =
   [IfE "err != nil" [Ret] []; Call "trim"; Call "savePatch"; IfE "err != nil" [Ret] []; Call "commit"; Ret].
 Proof. reflexivity. Qed.
+
+(* ---------- aliasing obligations (API path): what a getter hands out shares no mutable storage with the served value ----------
+   The HTTP handlers take Server.Get*Config() / GetConfig(), json.Unmarshal the request INTO that value and only then call
+   Set*Config (which validates).  json.Unmarshal re-uses the backing array of a slice whose capacity suffices and decodes
+   into existing maps and pointed-to structs in place, so every slice / map / pointer reachable from a getter's result must be
+   a fresh copy: the full-slice expressions `[:0:0]` (capacity 0 forces append to allocate), the map copy loops and the
+   `.Clone()` in every getter are pinned here; reffields_* pins the list of fields that are not plain values, so that a new
+   slice / map field without a copy is noticed.  The driver's API-path class finds the concrete request when one is lost. *)
+Lemma copy_Config_Clone_ok : copy_Config_Clone =
+  ["cfg := *c"; "return &cfg"].
+Proof. reflexivity. Qed.
+Lemma copy_ScheduleConfig_Clone_ok : copy_ScheduleConfig_Clone =
+  ["schedulers := append(c.Schedulers[:0:0], c.Schedulers...)"; "var storeLimit map[uint64]StoreLimitConfig"; "if c.StoreLimit != nil { storeLimit = make(map[uint64]StoreLimitConfig, len(c.StoreLimit)) for k, v := range c.StoreLimit { storeLimit[k] = v } }"; "cfg := *c"; "cfg.StoreLimit = storeLimit"; "cfg.Schedulers = schedulers"; "cfg.SchedulersPayload = nil"; "return &cfg"].
+Proof. reflexivity. Qed.
+Lemma copy_ReplicationConfig_Clone_ok : copy_ReplicationConfig_Clone =
+  ["locationLabels := append(c.LocationLabels[:0:0], c.LocationLabels...)"; "cfg := *c"; "cfg.LocationLabels = locationLabels"; "return &cfg"].
+Proof. reflexivity. Qed.
+Lemma copy_PDServerConfig_Clone_ok : copy_PDServerConfig_Clone =
+  ["runtimeServices := append(c.RuntimeServices[:0:0], c.RuntimeServices...)"; "cfg := *c"; "cfg.RuntimeServices = runtimeServices"; "return &cfg"].
+Proof. reflexivity. Qed.
+Lemma copy_LabelPropertyConfig_Clone_ok : copy_LabelPropertyConfig_Clone =
+  ["m := make(map[string][]StoreLabel, len(c))"; "for k, sl := range c { sl2 := make([]StoreLabel, 0, len(sl)) sl2 = append(sl2, sl...) m[k] = sl2 }"; "return m"].
+Proof. reflexivity. Qed.
+Lemma copy_ReplicationModeConfig_Clone_ok : copy_ReplicationModeConfig_Clone =
+  ["cfg := *c"; "return &cfg"].
+Proof. reflexivity. Qed.
+Lemma reffields_ScheduleConfig_ok : reffields_ScheduleConfig =
+  ["SplitMergeInterval: typeutil.Duration"; "PatrolRegionInterval: typeutil.Duration"; "MaxStoreDownTime: typeutil.Duration"; "StoreLimit: map[uint64]StoreLimitConfig"; "Schedulers: SchedulerConfigs"; "SchedulersPayload: map[string]interface{}"].
+Proof. reflexivity. Qed.
+Lemma reffields_ReplicationConfig_ok : reffields_ReplicationConfig =
+  ["LocationLabels: typeutil.StringSlice"].
+Proof. reflexivity. Qed.
+Lemma reffields_PDServerConfig_ok : reffields_PDServerConfig =
+  ["MaxResetTSGap: typeutil.Duration"; "RuntimeServices: typeutil.StringSlice"].
+Proof. reflexivity. Qed.
+Lemma reffields_ReplicationModeConfig_ok : reffields_ReplicationModeConfig =
+  ["DRAutoSync: DRAutoSyncReplicationConfig"].
+Proof. reflexivity. Qed.
+Lemma reffields_DRAutoSyncReplicationConfig_ok : reffields_DRAutoSyncReplicationConfig =
+  ["WaitStoreTimeout: typeutil.Duration"; "WaitSyncTimeout: typeutil.Duration"; "WaitAsyncTimeout: typeutil.Duration"].
+Proof. reflexivity. Qed.
+Lemma getter_GetScheduleConfig_ok : getter_GetScheduleConfig =
+  ["return s.persistOptions.GetScheduleConfig().Clone()"].
+Proof. reflexivity. Qed.
+Lemma getter_GetReplicationConfig_ok : getter_GetReplicationConfig =
+  ["return s.persistOptions.GetReplicationConfig().Clone()"].
+Proof. reflexivity. Qed.
+Lemma getter_GetPDServerConfig_ok : getter_GetPDServerConfig =
+  ["return s.persistOptions.GetPDServerConfig().Clone()"].
+Proof. reflexivity. Qed.
+Lemma getter_GetLabelProperty_ok : getter_GetLabelProperty =
+  ["return s.persistOptions.GetLabelPropertyConfig().Clone()"].
+Proof. reflexivity. Qed.
+(* fix 9b30bb0: before it this getter returned the served pointer (no Clone) and api_SetReplicationMode unmarshalled the request into it
+   before SetReplicationModeConfig validated: a rejected POST /config/replication-mode changed what is served *)
+Lemma getter_GetReplicationModeConfig_ok : getter_GetReplicationModeConfig =
+  ["return s.persistOptions.GetReplicationModeConfig().Clone()"].
+Proof. reflexivity. Qed.
+Lemma getter_GetClusterVersion_ok : getter_GetClusterVersion =
+  ["return *s.persistOptions.GetClusterVersion()"].
+Proof. reflexivity. Qed.
+Lemma getter_GetConfig_sections_ok : getter_GetConfig_sections =
+  ["cfg := s.cfg.Clone()"; "cfg.Schedule = *s.persistOptions.GetScheduleConfig().Clone()"; "cfg.Replication = *s.persistOptions.GetReplicationConfig().Clone()"; "cfg.PDServerCfg = *s.persistOptions.GetPDServerConfig().Clone()"; "cfg.ReplicationMode = *s.persistOptions.GetReplicationModeConfig()"; "cfg.LabelProperty = s.persistOptions.GetLabelPropertyConfig().Clone()"; "cfg.ClusterVersion = *s.persistOptions.GetClusterVersion()"; "cfg.Schedule.SchedulersPayload = payload"].
+Proof. reflexivity. Qed.
+Lemma api_SetSchedule_ok : api_SetSchedule =
+  ["config := h.svr.GetScheduleConfig()"; "if err := apiutil.ReadJSONRespondError(h.rd, w, r.Body, &config); err != nil { return }"; "if err := h.svr.SetScheduleConfig(*config); err != nil { h.rd.JSON(w, http.StatusInternalServerError, err.Error()) return }"].
+Proof. reflexivity. Qed.
+Lemma api_SetReplication_ok : api_SetReplication =
+  ["config := h.svr.GetReplicationConfig()"; "if err := apiutil.ReadJSONRespondError(h.rd, w, r.Body, &config); err != nil { return }"; "if err := h.svr.SetReplicationConfig(*config); err != nil { h.rd.JSON(w, http.StatusInternalServerError, err.Error()) return }"].
+Proof. reflexivity. Qed.
+Lemma api_SetReplicationMode_ok : api_SetReplicationMode =
+  ["config := h.svr.GetReplicationModeConfig()"; "if err := apiutil.ReadJSONRespondError(h.rd, w, r.Body, &config); err != nil { return }"; "if err := h.svr.SetReplicationModeConfig(*config); err != nil { h.rd.JSON(w, http.StatusInternalServerError, err.Error()) return }"].
+Proof. reflexivity. Qed.
+Lemma api_Post_ok : api_Post =
+  ["cfg := h.svr.GetConfig()"].
+Proof. reflexivity. Qed.
+Lemma api_updateSchedule_ok : api_updateSchedule =
+  ["updated, found, err := h.mergeConfig(&config.Schedule, data)"; "if updated { err = h.svr.SetScheduleConfig(config.Schedule) }"].
+Proof. reflexivity. Qed.
+Lemma api_updateReplication_ok : api_updateReplication =
+  ["updated, found, err := h.mergeConfig(&config.Replication, data)"; "if updated { err = h.svr.SetReplicationConfig(config.Replication) }"].
+Proof. reflexivity. Qed.
+Lemma api_updateReplicationModeConfig_ok : api_updateReplicationModeConfig =
+  ["updated, found, err := h.mergeConfig(&config.ReplicationMode, data)"; "if updated { err = h.svr.SetReplicationModeConfig(config.ReplicationMode) }"].
+Proof. reflexivity. Qed.
+Lemma api_updatePDServerConfig_ok : api_updatePDServerConfig =
+  ["updated, found, err := h.mergeConfig(&config.PDServerCfg, data)"; "if updated { err = h.svr.SetPDServerConfig(config.PDServerCfg) }"].
+Proof. reflexivity. Qed.
+Lemma api_mergeConfig_ok : api_mergeConfig =
+  ["if err := json.Unmarshal(data, v); err != nil { return false, false, err }"].
+Proof. reflexivity. Qed.
